@@ -39,7 +39,7 @@ def cfgs(tier):
             outs = {'r': r}
             ciw = cow = None
             if ci:
-                ciw = W(s, 'ci', 1)
+                ciw = W(s, 'ci', ci)                   # ci = width of the carry-in wire (the whole value is added)
                 ins['ci'] = ciw
             if co:
                 cow = W(s, 'co', 1)
@@ -48,7 +48,7 @@ def cfgs(tier):
             return ins, outs
 
         def spec(V):
-            n = max(aw, bw, rw) + 3
+            n = max(aw, bw, rw, ci) + 3
             t = zx(V['a'], n) + zx(V['b'], n)
             if ci:
                 t = t + zx(V['ci'], n)
@@ -66,6 +66,11 @@ def cfgs(tier):
                 if quick and not (aw == bw or rw == max(aw, bw) or rw == max(aw, bw) + 1) and (ci or co):
                     continue
                 yield 'Add a%d b%d r%d ci%d co%d' % (aw, bw, rw, ci, co), add_cfg(aw, bw, rw, ci, co)
+    # carry-in wires wider than one bit
+    for aw, bw, rw, ciw in ([(4, 4, 4, 2), (4, 4, 5, 3), (3, 5, 8, 2), (8, 8, 8, 4)] if quick else
+                            [(4, 4, 4, 2), (4, 4, 5, 3), (3, 5, 8, 2), (8, 8, 8, 4), (1, 1, 3, 2), (5, 5, 5, 5), (2, 6, 6, 3)]):
+        for co in (0, 1):
+            yield 'Add a%d b%d r%d carry-in %d bits wide co%d' % (aw, bw, rw, ciw, co), add_cfg(aw, bw, rw, ciw, co)
 
     # ---- two-operand blocks ---------------------------------------------------------------
     def bin_cfg(cls, aw, bw, rw, fn, assume=None):
